@@ -33,6 +33,8 @@ pub struct Pipe {
     pub(crate) wr_waker: Option<Waker>,
     /// ready_at of the newest chunk (FIFO latency)
     pub(crate) last_ready: u64,
+    /// (virtual time, total bytes written so far) per write call
+    pub write_log: Vec<(u64, u64)>,
 }
 
 impl Pipe {
@@ -50,6 +52,7 @@ impl Pipe {
             rd_waker: None,
             wr_waker: None,
             last_ready: 0,
+            write_log: Vec::new(),
         }
     }
     pub(crate) fn available(&self, now: u64) -> usize {
@@ -274,19 +277,25 @@ impl PeerEnd {
     }
     /// bytes become readable by the other end after `delay` ns (FIFO preserved)
     pub fn write_delayed(&self, data: &[u8], delay: u64) {
-        let wk = with(|w| {
+        let _ = self.write_delayed_at(data, delay);
+    }
+    /// like `write_delayed`; returns the instant at which the bytes become readable
+    /// (delivery is FIFO, so an earlier delayed chunk holds later ones back)
+    pub fn write_delayed_at(&self, data: &[u8], delay: u64) -> u64 {
+        let (wk, at) = with(|w| {
             let now = w.now;
             w.event("peer_write", self.conn as u64, data.len() as u64);
             let p = self.out_pipe(w);
             if p.wr_closed || p.rd_closed {
-                return None;
+                return (None, u64::MAX);
             }
             p.push(now.saturating_add(delay), data);
-            p.rd_waker.take()
+            (p.rd_waker.take(), p.last_ready)
         });
         if let Some(wk) = wk {
             wk.wake();
         }
+        at
     }
     /// take everything the other end has written so far
     pub fn take_received(&self) -> Vec<u8> {
@@ -299,6 +308,10 @@ impl PeerEnd {
             wk.wake();
         }
         v
+    }
+    /// (virtual time, cumulative byte count) of every write the other end has made
+    pub fn remote_write_log(&self) -> Vec<(u64, u64)> {
+        with(|w| self.in_pipe(w).write_log.clone())
     }
     pub fn received_len(&self) -> usize {
         with(|w| self.in_pipe(w).buffered)
@@ -840,6 +853,10 @@ impl AsyncWrite for TcpStream {
             };
             let p = &mut w.net.conns[conn].pipes[side];
             p.push(now + lat, &data[..n]);
+            if p.write_log.len() < 100_000 {
+                let tw = p.total_written;
+                p.write_log.push((now, tw));
+            }
             let wk = p.rd_waker.take();
             w.event("write", conn as u64 * 2 + side as u64, n as u64);
             if let Some(wk) = wk {
